@@ -10,6 +10,7 @@ property theorems are stated over those regenerated values.
 import RqModel.Lemmas.CasRetry
 import RqModel.Gen.Consts
 import RqModel.Gen.QueueSvc
+import RqModel.Gen.SnapshotLock
 import RqModel.Lemmas.LockFacts
 namespace C31
 open RqModel.CasRetry
@@ -180,6 +181,30 @@ interval that is shorter than its timeout — i.e. none has the two arguments sw
 theorem every_retry_call_site_ordered :
     RqModel.Gen.QueueSvc.beginWithRetryCalls.length = 2 ∧
     ∀ c ∈ RqModel.Gen.QueueSvc.beginWithRetryCalls, 0 < c.2.2 ∧ c.2.2 * 10 ≤ c.2.1 := by decide
+
+/-- the retry loop as it stands in the current sources (regenerated): deadline computed once
+before the loop; each iteration tries `Begin`, returns on success, gives up when the deadline
+has passed (strict `After`), otherwise sleeps `retryInterval` — the steps of `loop` in the model -/
+theorem retry_loop_body :
+    RqModel.Gen.SnapshotLock.beginWithRetryBody =
+      ["before: deadline := time.Now().Add(timeout)", "err := c.Begin(owner)", "if err == nil",
+       "if !errors.Is(err, ErrCASConflict)", "if time.Now().After(deadline)", "time.Sleep(retryInterval)"] := by
+  decide
+
+/-- `Close` with the arguments of the current sources against an arbitrary schedule of other
+gate users: once the gate stays free from `r` on, `Close` has it within a second of
+`max start r`, and it cannot fail if `r` is within ten seconds of the call. -/
+theorem close_contended_prompt_once_free (start r : Nat) (held : Nat → Bool)
+    (hfree : ∀ t, r ≤ t → held t = false) :
+    (∀ t, beginWithRetryH start (RqModel.Gen.Consts.closeCasTimeoutNs.getD 0)
+        (RqModel.Gen.Consts.closeCasRetryNs.getD 0) held = .acquired t → t < max start r + second) ∧
+    (r ≤ start + 10 * second → ∃ t, beginWithRetryH start (RqModel.Gen.Consts.closeCasTimeoutNs.getD 0)
+        (RqModel.Gen.Consts.closeCasRetryNs.getD 0) held = .acquired t) := by
+  obtain ⟨h1, h2⟩ := contended_prompt_once_free start (RqModel.Gen.Consts.closeCasTimeoutNs.getD 0)
+    (RqModel.Gen.Consts.closeCasRetryNs.getD 0) held r hfree
+  have hiv : effInterval (RqModel.Gen.Consts.closeCasRetryNs.getD 0) ≤ second := by decide
+  have hto : (RqModel.Gen.Consts.closeCasTimeoutNs.getD 0).toNat = 10 * second := by decide
+  exact ⟨fun t h => by have := h1 t h; omega, fun hr => h2 (by omega)⟩
 
 /-- `BeginWithRetry` itself takes no lock: it is a loop around `Begin` -/
 theorem retry_is_a_loop_around_begin :
